@@ -253,6 +253,54 @@ def _load_compilers():
                     compiler.passes[name] = _CompilerPass.from_toml(p)
 
 
+def _normalize_arguments(argv: list[str]) -> list[str]:
+    """
+    Rewrite the spellings of common compiler options that argparse cannot
+    represent, and drop common options that do not affect preprocessing.
+
+    - "-isystem dir", "-isystemdir", "-include file" and "-includefile"
+      become "-isystem=dir" and "-include=file".
+    - "-D name" and "-I dir" become "-Dname" and "-Idir", so that values
+      beginning with "-" are not mistaken for options.
+    - "-c", debug options ("-g", "-g3", "-ggdb", ...) and optimization
+      options ("-O", "-O2", "-Ofast", ...) are removed.
+
+    Parameters
+    ----------
+    argv: list[str]
+        The list of arguments passed to the compiler.
+
+    Returns
+    -------
+    list[str]
+        An equivalent list of arguments.
+    """
+    debug = re.compile(
+        r"^-g(\d|gdb\d?|dwarf(-\d)?|split-dwarf|line-tables-only|mlt)?$",
+    )
+    result = []
+    i = 0
+    while i < len(argv):
+        arg = argv[i]
+        has_value = i + 1 < len(argv)
+        if arg in ["-D", "-I"] and has_value:
+            result.append(arg + argv[i + 1])
+            i += 1
+        elif arg in ["-isystem", "-include"] and has_value:
+            result.append(arg + "=" + argv[i + 1])
+            i += 1
+        elif arg.startswith("-isystem") and arg != "-isystem":
+            result.append("-isystem=" + arg[len("-isystem") :].lstrip("="))
+        elif arg.startswith("-include") and arg != "-include":
+            result.append("-include=" + arg[len("-include") :].lstrip("="))
+        elif arg == "-c" or debug.match(arg) or re.match(r"^-O\w*$", arg):
+            pass
+        else:
+            result.append(arg)
+        i += 1
+    return result
+
+
 @dataclass
 class PreprocessorConfiguration:
     """
@@ -375,10 +423,8 @@ class ArgumentParser:
         )
 
         # Suppress warnings for common arguments we don't care about.
-        parser.add_argument("-O", dest=None)
+        # (-c, -g* and -O* are removed by _normalize_arguments.)
         parser.add_argument("-o", dest=None)
-        parser.add_argument("-g", action="store_const", dest=None)
-        parser.add_argument("-c", action="store_const", dest=None)
         parser.add_argument("file", nargs="*")
 
         # Add additional options for this specific compiler.
@@ -399,7 +445,7 @@ class ArgumentParser:
 
         # Make a best-effort attempt to parse arguments.
         args, unrecognized = parser.parse_known_args(
-            argv + self.compiler.options,
+            _normalize_arguments(argv + self.compiler.options),
             namespace,
         )
         if unrecognized:
